@@ -14,6 +14,7 @@ import (
 
 	bcntypes "github.com/unification-com/mainchain/x/beacon/types"
 	enttypes "github.com/unification-com/mainchain/x/enterprise/types"
+	strtypes "github.com/unification-com/mainchain/x/stream/types"
 	wrktypes "github.com/unification-com/mainchain/x/wrkchain/types"
 )
 
@@ -48,11 +49,11 @@ func (s *scen) tx(signer int, fee sdk.Coins, msgs ...sdk.Msg) txResult {
 }
 
 func (s *scen) blockStart(dt time.Duration) interface{} { return s.c.begin(dt) }
-func (s *scen) blockEnd()                              { s.c.end(nil); s.c.commit() }
+func (s *scen) blockEnd()                               { s.c.end(nil); s.c.commit() }
 
 func runScenarios() []monFailure {
 	var out []monFailure
-	for _, f := range []func() []monFailure{scenUpperCaseDecision, scenNestedOverflowPurchase, scenMixedModulesFee, scenDenomChange, scenVestingPurchaser, scenExtraDenomFee, scenGovPurchaser, scenMaxHeight, scenGovFundedExport} {
+	for _, f := range []func() []monFailure{scenUpperCaseDecision, scenNestedOverflowPurchase, scenMixedModulesFee, scenDenomChange, scenVestingPurchaser, scenExtraDenomFee, scenGovPurchaser, scenMaxHeight, scenGovFundedExport, scenFeeBoundary, scenForgedForLockedOwner, scenMaxLoweredBelowLimit} {
 		out = append(out, f()...)
 	}
 	return out
@@ -172,8 +173,116 @@ func scenDenomChange() []monFailure {
 		return s.failures
 	}
 	s.blockEnd()
+	supplyBefore := c.app.BankKeeper.GetSupply(c.committedCtx(), "nund").Amount
 	if p := s.blockStart(5 * time.Second); p != nil { // completion of order 2: coin denominations differ
 		s.fail("C14", 1, fmt.Sprint("BeginBlock panicked after governance changed the enterprise denomination with an accepted order queued: ", p))
+		return s.failures
+	}
+	// the block did not halt: then the order must have been completed, and minted exactly once, however many blocks follow
+	s.blockEnd()
+	for i := 0; i < 3; i++ {
+		if p := s.blockStart(5 * time.Second); p != nil {
+			s.fail("C14", 0, fmt.Sprint("a later BeginBlock panicked: ", p))
+			return s.failures
+		}
+		s.blockEnd()
+	}
+	minted := c.app.BankKeeper.GetSupply(c.committedCtx(), "nund").Amount.Sub(supplyBefore)
+	want := sdk.ZeroInt()
+	if po, ok := c.app.EnterpriseKeeper.GetPurchaseOrder(c.committedCtx(), 1); ok && po.Status == enttypes.StatusCompleted {
+		want = po.Amount.Amount
+	}
+	if !minted.Equal(want) {
+		s.fail("C02", 0, fmt.Sprintf("native supply rose by %s over four blocks while completed purchase orders amount to %s", minted, want))
+		s.fail("C03", 0, fmt.Sprintf("an accepted order was minted for %s in total, completed orders amount to %s", minted, want))
+	}
+	return s.failures
+}
+
+// the boundary of the stream validator fee: a rate above 1 must not be accepted (it strands every stream: the fee
+// exceeds the claim), and at exactly 1 claims, cancels and top-ups must still work and keep the escrow backed.
+func scenFeeBoundary() []monFailure {
+	s := &scen{c: newChain(fixedCfg()), name: "validator-fee-boundary"}
+	defer s.c.close()
+	c := s.c
+	propID := uint64(0)
+	govSet := func(fee string) bool {
+		d, err := sdk.NewDecFromStr(fee)
+		if err != nil {
+			return false
+		}
+		upd := &strtypes.MsgUpdateParams{Authority: authtypes.NewModuleAddress("gov").String(), Params: strtypes.Params{ValidatorFee: d}}
+		prop, err := govv1.NewMsgSubmitProposal([]sdk.Msg{upd}, sdk.NewCoins(sdk.NewInt64Coin("stake", 10)), c.govActor.addr.String(), "", "t", "s")
+		if err != nil {
+			return false
+		}
+		s.blockStart(5 * time.Second)
+		r, _ := c.deliver(txSpec{msgs: []sdk.Msg{prop}, signers: []acct{c.govActor}})
+		if r.Code == 0 {
+			propID++
+			c.deliver(txSpec{msgs: []sdk.Msg{govv1.NewMsgVote(c.govActor.addr, propID, govv1.OptionYes, "")}, signers: []acct{c.govActor}})
+		}
+		s.blockEnd()
+		s.blockStart(30 * time.Second)
+		s.blockEnd()
+		return c.app.StreamKeeper.GetParams(c.committedCtx()).ValidatorFee.Equal(d)
+	}
+	big := func(mant int64, zeros int) sdk.Int {
+		v := sdk.NewInt(mant)
+		for i := 0; i < zeros; i++ {
+			v = v.MulRaw(10)
+		}
+		return v
+	}
+	pair := 0
+	exercise := func(label string) {
+		sn, rc := 2+pair%2, 3-pair%2 // alternate direction: a fresh (sender, receiver) pair per call needs distinct pairs
+		pair++
+		dep := sdk.NewCoin("atest", big(4, 19))
+		s.blockStart(5 * time.Second)
+		if r := s.tx(sn, nundCoins(10), strtypes.NewMsgCreateStream(dep, 100_000_000_000_000_000, c.addrOf(rc), c.addrOf(sn))); r.Code != 0 {
+			s.blockEnd()
+			return // could not create (e.g. the pair exists): nothing to check
+		}
+		s.blockEnd()
+		s.blockStart(100 * time.Second)
+		if r := s.tx(rc, nundCoins(10), strtypes.NewMsgClaimStream(c.addrOf(rc), c.addrOf(sn))); r.Code != 0 {
+			s.fail("C12", 0, fmt.Sprintf("claim on a funded stream failed under validator fee %s: %s", label, firstLine(r.Log)))
+		}
+		if r := s.tx(sn, nundCoins(10), strtypes.NewMsgTopUpDeposit(c.addrOf(rc), c.addrOf(sn), dep)); r.Code != 0 {
+			s.fail("C12", 0, fmt.Sprintf("top-up failed under validator fee %s: %s", label, firstLine(r.Log)))
+		}
+		s.blockEnd()
+		s.blockStart(50 * time.Second)
+		if r := s.tx(sn, nundCoins(10), strtypes.NewMsgCancelStream(c.addrOf(rc), c.addrOf(sn))); r.Code != 0 {
+			s.fail("C12", 0, fmt.Sprintf("cancel failed under validator fee %s: %s", label, firstLine(r.Log)))
+		}
+		s.blockEnd()
+		// escrow backing after the stream is gone
+		ctx := c.committedCtx()
+		held := c.app.BankKeeper.GetBalance(ctx, moduleAddr(strtypes.ModuleName), "atest").Amount
+		sum := sdk.ZeroInt()
+		c.app.StreamKeeper.IterateAllStreams(ctx, func(_, _ sdk.AccAddress, st strtypes.Stream) bool {
+			if st.Deposit.Denom == "atest" {
+				sum = sum.Add(st.Deposit.Amount)
+			}
+			return false
+		})
+		if !held.Equal(sum) {
+			s.fail("C10", 0, fmt.Sprintf("under validator fee %s the escrow holds %s atest, remaining deposits sum to %s", label, held, sum))
+		}
+	}
+	for _, fee := range []string{"1.000000000000000001", "1.000000000000000010", "1.000000000000000100"} {
+		if govSet(fee) {
+			s.fail("C16", 0, "governance stored a stream validator fee above 1: "+fee)
+			s.fail("C12", 0, "the chain accepted a validator fee above 1 ("+fee+"): a claim of 1/(fee-1) or more can never be paid")
+			exercise(fee)
+		}
+	}
+	if govSet("1.000000000000000000") {
+		exercise("1.0")
+	} else {
+		s.fail("C16", 0, "a valid stream validator fee of exactly 1 was not stored")
 	}
 	return s.failures
 }
@@ -366,6 +475,130 @@ func scenGovFundedExport() []monFailure {
 			class = 1
 		}
 		s.fail("C15", class, p)
+	}
+	return s.failures
+}
+
+// a registry transaction naming an owner who holds locked eFUND, signed by somebody else / with a stale sequence, must be
+// rejected like any other forged transaction (the eFUND branch of the ante chain must not end the chain early), and a
+// genuine one must pay its fee and advance the sequence.
+func scenForgedForLockedOwner() []monFailure {
+	s := &scen{c: newChain(fixedCfg()), name: "forged-registry-tx-for-locked-efund-owner"}
+	defer s.c.close()
+	c := s.c
+	s.blockStart(5 * time.Second)
+	s.tx(4, nundCoins(10), enttypes.NewMsgUndPurchaseOrder(c.addrOf(4), sdk.NewInt64Coin("nund", 1_000_000)))
+	s.tx(0, nundCoins(10), &enttypes.MsgProcessUndPurchaseOrder{PurchaseOrderId: 1, Decision: enttypes.StatusAccepted, Signer: c.addrOf(0).String()})
+	s.tx(1, nundCoins(10), &enttypes.MsgProcessUndPurchaseOrder{PurchaseOrderId: 1, Decision: enttypes.StatusAccepted, Signer: c.addrOf(1).String()})
+	s.blockEnd()
+	for i := 0; i < 2; i++ {
+		s.blockStart(5 * time.Second)
+		s.blockEnd()
+	}
+	s.blockStart(5 * time.Second)
+	defer s.blockEnd()
+	if !c.app.EnterpriseKeeper.IsLocked(c.ctx(), c.addrOf(4)) {
+		return s.failures // no locked eFUND: nothing to check
+	}
+	if r := s.tx(4, nundCoins(1000), bcntypes.NewMsgRegisterBeacon("mon4", "name", c.addrOf(4))); r.Code != 0 {
+		return s.failures
+	}
+	rec := bcntypes.NewMsgRecordBeaconTimestamp(1, "forged-hash", 1, c.addrOf(4))
+	lockedBefore := c.app.EnterpriseKeeper.GetLockedUndAmountForAccount(c.ctx(), c.addrOf(4)).Amount
+	r, _ := c.deliver(txSpec{msgs: []sdk.Msg{rec}, fee: nundCoins(10), signers: []acct{c.accts[5]}})
+	if r.Code == 0 {
+		s.fail("C13", 0, "a BEACON record naming an owner with locked eFUND executed although it was signed by another account's key")
+		s.fail("C09", 0, "a BEACON record took effect without the registered owner's signature")
+	}
+	if now := c.app.EnterpriseKeeper.GetLockedUndAmountForAccount(c.ctx(), c.addrOf(4)).Amount; !now.Equal(lockedBefore) {
+		s.fail("C05", 0, fmt.Sprintf("a rejected forged transaction changed the owner's locked eFUND from %s to %s", lockedBefore, now))
+	}
+	r, _ = c.deliver(txSpec{msgs: []sdk.Msg{rec}, fee: nundCoins(10), signers: []acct{c.accts[4]}, seqDelta: 1})
+	if r.Code == 0 {
+		s.fail("C13", 0, "a BEACON record of an owner with locked eFUND executed with a signature over the wrong sequence number")
+	}
+	seq := c.app.AccountKeeper.GetAccount(c.ctx(), c.addrOf(4)).GetSequence()
+	if r := s.tx(4, nundCoins(10), rec); r.Code != 0 {
+		s.fail("C09", 0, "the owner's genuine record was refused: "+firstLine(r.Log))
+	} else if now := c.app.AccountKeeper.GetAccount(c.ctx(), c.addrOf(4)).GetSequence(); now != seq+1 {
+		s.fail("C13", 0, fmt.Sprintf("the owner's genuine record did not advance the account sequence (%d -> %d): the transaction can be replayed", seq, now))
+	}
+	return s.failures
+}
+
+// governance lowers the maximum storage limit below a limit that was bought earlier: every later limit check must use
+// the new maximum (no further purchase, reported capacity 0), the bought limit itself stays, and an export + import
+// keeps it too.
+func scenMaxLoweredBelowLimit() []monFailure {
+	s := &scen{c: newChain(fixedCfg()), name: "max-storage-lowered-below-bought-limit"}
+	defer s.c.close()
+	c := s.c
+	gov := authtypes.NewModuleAddress("gov").String()
+	s.blockStart(5 * time.Second)
+	s.tx(2, nundCoins(1000), wrktypes.NewMsgRegisterWrkChain("mon", "gh", "name", "geth", c.addrOf(2)))
+	s.tx(2, nundCoins(1000), bcntypes.NewMsgRegisterBeacon("bmon", "bname", c.addrOf(2)))
+	s.tx(2, nundCoins(10), wrktypes.NewMsgPurchaseWrkChainStateStorage(1, 2, c.addrOf(2))) // limit 2 -> 4 (max 5)
+	s.tx(2, nundCoins(10), bcntypes.NewMsgPurchaseBeaconStateStorage(1, 2, c.addrOf(2)))
+	wp := wrktypes.NewParams(1000, 10, 5, "nund", 2, 3)
+	bp := bcntypes.NewParams(1000, 10, 5, "nund", 2, 3)
+	prop, err := govv1.NewMsgSubmitProposal([]sdk.Msg{&wrktypes.MsgUpdateParams{Authority: gov, Params: wp}, &bcntypes.MsgUpdateParams{Authority: gov, Params: bp}},
+		sdk.NewCoins(sdk.NewInt64Coin("stake", 10)), c.govActor.addr.String(), "", "t", "s")
+	if err != nil {
+		s.blockEnd()
+		return s.failures
+	}
+	c.deliver(txSpec{msgs: []sdk.Msg{prop}, signers: []acct{c.govActor}})
+	c.deliver(txSpec{msgs: []sdk.Msg{govv1.NewMsgVote(c.govActor.addr, 1, govv1.OptionYes, "")}, signers: []acct{c.govActor}})
+	s.blockEnd()
+	s.blockStart(30 * time.Second)
+	s.blockEnd()
+	ctx := c.committedCtx()
+	if c.app.WrkchainKeeper.GetParams(ctx).MaxStorageLimit != 3 || c.app.BeaconKeeper.GetParams(ctx).MaxStorageLimit != 3 {
+		return s.failures // the proposal did not execute: nothing to check
+	}
+	wl, _ := c.app.WrkchainKeeper.GetWrkChainStorageLimit(ctx, 1)
+	bl, _ := c.app.BeaconKeeper.GetBeaconStorageLimit(ctx, 1)
+	if wl.InStateLimit != 4 || bl.InStateLimit != 4 {
+		return s.failures
+	}
+	if n := c.app.WrkchainKeeper.GetMaxPurchasableSlots(ctx, 1); n != 0 {
+		s.fail("C08", 0, fmt.Sprintf("WRKChain limit 4 above the new maximum 3: purchasable capacity reported as %d", n))
+		s.fail("C16", 0, fmt.Sprintf("after the maximum was lowered to 3 the capacity of a WRKChain with limit 4 is reported as %d", n))
+	}
+	if n := c.app.BeaconKeeper.GetMaxPurchasableSlots(ctx, 1); n != 0 {
+		s.fail("C08", 0, fmt.Sprintf("BEACON limit 4 above the new maximum 3: purchasable capacity reported as %d", n))
+		s.fail("C16", 0, fmt.Sprintf("after the maximum was lowered to 3 the capacity of a BEACON with limit 4 is reported as %d", n))
+	}
+	s.blockStart(5 * time.Second)
+	if r := s.tx(2, nundCoins(5), wrktypes.NewMsgPurchaseWrkChainStateStorage(1, 1, c.addrOf(2))); r.Code == 0 {
+		s.fail("C16", 0, "a WRKChain storage purchase succeeded above the maximum set by governance")
+		s.fail("C08", 0, "a WRKChain limit was raised above the maximum in force")
+	}
+	if r := s.tx(2, nundCoins(5), bcntypes.NewMsgPurchaseBeaconStateStorage(1, 1, c.addrOf(2))); r.Code == 0 {
+		s.fail("C16", 0, "a BEACON storage purchase succeeded above the maximum set by governance")
+		s.fail("C08", 0, "a BEACON limit was raised above the maximum in force")
+	}
+	s.blockEnd()
+	ctx = c.committedCtx()
+	wl, _ = c.app.WrkchainKeeper.GetWrkChainStorageLimit(ctx, 1)
+	bl, _ = c.app.BeaconKeeper.GetBeaconStorageLimit(ctx, 1)
+	old, problems := c.reimport()
+	for _, p := range problems {
+		s.fail("C15", 0, p)
+	}
+	if old == nil {
+		return s.failures
+	}
+	defer old.Close()
+	ctx = c.committedCtx()
+	wl2, _ := c.app.WrkchainKeeper.GetWrkChainStorageLimit(ctx, 1)
+	bl2, _ := c.app.BeaconKeeper.GetBeaconStorageLimit(ctx, 1)
+	if wl2.InStateLimit != wl.InStateLimit {
+		s.fail("C15", 0, fmt.Sprintf("WRKChain limit %d became %d through export + import", wl.InStateLimit, wl2.InStateLimit))
+	}
+	if bl2.InStateLimit != bl.InStateLimit {
+		s.fail("C15", 0, fmt.Sprintf("BEACON limit %d became %d through export + import", bl.InStateLimit, bl2.InStateLimit))
+		s.fail("C08", 0, fmt.Sprintf("a BEACON's bought limit %d dropped to %d", bl.InStateLimit, bl2.InStateLimit))
 	}
 	return s.failures
 }
